@@ -151,7 +151,7 @@ def exec (cs : CSt) (ws : List String) : CSt × List String :=
       | some h, some ci =>
         match w.getComp h ci with
         | none => (cs, ["val=null"])
-        | some v => (cs, ["val=" ++ showVal v])
+        | some v => (cs, ["val=" ++ showVal v ++ (if g = "getmut" then " st=1" else " st=0")])
       | _, _ => (cs, ["bad-op"])
     else if g = "destroynow" || g = "destroy" then
       match [e, c].mapM s.entity with
